@@ -10,12 +10,14 @@ Keys are lower-case hex, the empty key is `-`; a pair is `<hexkey>:<value>`.
   nav <nodeID>                (firstLabelPos, nodeSize, lastLabelPos, prefix of a node)
   navpos <pos>                (hasChild, childNodeID | valuePos, isEndOfNode, suffix of a label)
   get <key> | lget <key> | iter | liter | riter | seek <key> | seeklb <key> | prefix <key>
+  siter | sriter | sseek <key> | sprefix <key>     (the iterator stack machine over the vectors)
   bv <bits> ...               bvbits | bvranklut | bvsellut | rank <i> | select <k> | dist <i>
   bucket <blockSize> | <pair> ... | <pair> ...
   bget <key> | bvalues | bpairs | bsuggest <key> <limit> | blike <prefix> <pre|suf|has> <sub> | bmerge <blockSize>
 -/
 import LinVerif.Util.Proto
 import LinVerif.Model.Louds
+import LinVerif.Model.LoudsIter
 import LinVerif.Model.TrieBucket
 import LinVerif.Generated.C20
 
@@ -189,6 +191,20 @@ def step (st : St) (ws : List String) : St × String :=
   | ["iter"] => withTree st (fun t => showPairs (iter t))
   | ["liter"] => withFlat st (fun f => showPairs (loudsIter f))
   | ["riter"] => withTree st (fun t => showPairs (iter t).reverse)
+  | ["siter"] => withFlat st (fun f => showPairs (LoudsIter.iterAll f))
+  | ["sriter"] => withFlat st (fun f => showPairs (LoudsIter.riterAll f))
+  | ["sseek", k] =>
+    match parseKey k with
+    | none => (st, "bad-op")
+    | some key => withFlat st (fun f =>
+        let r := LoudsIter.seekFirst stepLB f key 3
+        match r.2 with
+        | [] => s!"fp={if r.1 then 1 else 0} invalid"
+        | l => s!"fp={if r.1 then 1 else 0} " ++ showPairs l)
+  | ["sprefix", k] =>
+    match parseKey k with
+    | none => (st, "bad-op")
+    | some key => withFlat st (fun f => showPairs (LoudsIter.prefixAll stepLB f key))
   | ["seek", k] =>
     match parseKey k with
     | none => (st, "bad-op")
